@@ -81,6 +81,11 @@ def o121(ctx):
         f = r.ret
         if not isinstance(f, imgdom.Filtered) or f.gain is None or f.axes is None:
             raise Unsupported(f"{name} does not return the inverse transform of (FFT(input) * filter array)", fn)
+        ctx.count(1)
+        if getattr(f, "cast", None) is not None:
+            ctx.finding(q, getattr(f, "cast_node", fn), f"{name}: the filtered map is converted to a type taken from the data ({tm.show(f.cast)[:40]}): for "
+                        "integer maps the result is truncated, so the filter is no longer linear and low-pass + high-pass no longer add up to "
+                        "the map", getattr(f, "cast_node", fn), m)
         ctx.count(1, {"filter": name, "gain": tm.show(f.gain)[:200]})
         # (a) linear, shift-commuting, real: result = real(ifftn(fftn(input) * G)) with G independent of the voxel values
         if f.src != sym("vol") or f.transformed != "all":
